@@ -6,7 +6,8 @@ EXPLANATION = ("Panic-safety typestate over every function of collections/, boxe
                "by their TermFlow terms as length/cursor commit up or down, len := 0 amplification; ptr::read/copy/drop_in_place as hole-creating; ptr::write as initialising; calls "
                "that may run user code, found by trait-resolution facts and a transitive may-call-user summary) are replayed over the CFG to a fixpoint. At every site where user "
                "code may run (and unwind): no length/cursor may have been advanced without an initialised/processed slot to justify it, the slot being destroyed must already be "
-               "excluded from the length, and no moved-out/duplicated slot may be exposed unless the length was zeroed first or a crate guard whose Drop restores the length covers it.")
+               "excluded from the length, and no moved-out/duplicated slot may be exposed unless the length was zeroed first or a crate guard whose Drop restores the length covers it."
+               ' (R2) drain_filter formula clauses; (R3) Drain / Splice formula clauses (the drained range is consumed element by element before anything is written); a length set with nothing written or moved beforehand counts as advanced unless it provably only lowers the length.')
 RULE = "rule instance = (function, user-call site); non-trivial = function has both a user-call site and a hole/commit operation; distinct by (function, site)"
 
 SCOPE = ('src/collections', 'src/boxed.rs')
